@@ -638,6 +638,10 @@ func (t *fnTrans) privateCtx() bool {
 }
 
 func (t *fnTrans) guardAccess(l *loc, write bool, pos token.Pos) {
+	if l.enc != nil {
+		// a field of a struct embedded by value in a guarded field is an access to that field
+		t.guardAccess(l.enc, write, pos)
+	}
 	if l.kind != locField || l.owner == "" {
 		if l.kind == locCell && l.owner != "" {
 			// nested struct / array field as a whole
